@@ -22,14 +22,14 @@ echo "== demo with patch" >> $LOG
 ( cd $OUT && W=$WT timeout 900 bash ./demo$K.sh ) > $DST/demo.patched.out 2>&1; DEMO_P=$?
 echo "demo with patch: exit $DEMO_P" >> $LOG
 echo "== ctest with patch" >> $LOG
-ctest --test-dir _build -j8 --timeout 900 > $DST/ctest.patched.out 2>&1
+flock /tmp/mut/ctest.lock ctest --test-dir _build -j8 --timeout 900 > $DST/ctest.patched.out 2>&1
 FAILED=$(grep -E "^\s+[0-9]+ - " $DST/ctest.patched.out | sed -E 's/^\s+[0-9]+ - ([^ ]+).*/\1/')
 EXTRA=""
 for t in $FAILED; do
   case " $KNOWN " in *" $t "*) ;; *)
     # timing-sensitive under load: re-run alone, twice at most
     ok=0
-    for i in 1 2; do if ctest --test-dir _build -R "^$t\$" --timeout 900 >> $LOG 2>&1; then ok=1; break; fi; done
+    for i in 1 2; do if flock /tmp/mut/ctest.lock ctest --test-dir _build -R "^$t\$" --timeout 900 >> $LOG 2>&1; then ok=1; break; fi; done
     [ $ok = 1 ] || EXTRA="$EXTRA $t" ;;
   esac
 done
